@@ -17,3 +17,6 @@
 (assert (forall ((x Fr)) (! (= (fr_mul fr_one x) x) :pattern ((fr_mul fr_one x)))))
 (assert (forall ((x Fp)) (! (= (fp_mul x fp_one) x) :pattern ((fp_mul x fp_one)))))
 (assert (forall ((x Fp)) (! (= (fp_mul fp_one x) x) :pattern ((fp_mul fp_one x)))))
+; square-root assembly (SqrtPrecomp): from c^2 = x*w and i^2*w = 1 follows (c*i)^2 = x. Ring identity
+; (c i)^2 - x = (c^2 - x w) i^2 + x (i^2 w - 1), checked in spec/lemmas/C17_sqrt_assembly.smt2
+(assert (forall ((c Fp) (i Fp) (x Fp) (w Fp)) (! (=> (and (= (fp_mul c c) (fp_mul x w)) (= (fp_mul (fp_mul i i) w) fp_one)) (= (fp_mul (fp_mul c i) (fp_mul c i)) x)) :pattern ((fp_mul (fp_mul c i) (fp_mul c i)) (fp_mul x w) (fp_mul (fp_mul i i) w)))))
